@@ -143,6 +143,45 @@ Theorem C18_datacollector_continue : forall cfg s t r ign s' e ops,
 Proof. intros cfg s t r ign s' e ops H. rewrite (step_addrow_atomic cfg s t r ign s' e H). reflexivity. Qed.
 Print Assumptions C18_datacollector_continue.
 
+(* The DataFrames are a lossless re-indexing of the records, for ALL histories (no hypothesis: also after
+   collects that raised).  The modelled frames (compared with pandas' own result on every Frames operation
+   of the correspondence) carry: index names (Step, AgentID); one column per reporter, in dictionary
+   order; the rows in collection order.  From the frame the records are recovered:
+   - agent / agent-type frame: grouping consecutive rows by their Step index gives back _agent_records
+     (every step that recorded at least one row, in order, with its rows in order), each row as wide
+     as the column list;
+   - model-vars frame and tables (default 0..n-1 index): reading the rows back column by column gives
+     model_vars / the table, labels included. *)
+Theorem C12_frames_lossless : forall cfg ops,
+  let d := s_d (exec cfg (state_init cfg) ops) in
+  (forall fr, agent_frame cfg d = Ok fr ->
+     af_index fr = [IDX_STEP; IDX_AGENTID] /\ af_cols fr = map fst (c_areps cfg) /\
+     group_rows (af_rows fr) = filter nonempty (d_arecs d) /\
+     (forall r, In r (af_rows fr) -> length (snd r) = length (af_cols fr))) /\
+  (forall t,
+     af_index (type_frame cfg d t) = [IDX_STEP; IDX_AGENTID] /\
+     af_cols (type_frame cfg d t) = map fst (match aget t (c_treps cfg) with Some reps => reps | None => [] end) /\
+     group_rows (af_rows (type_frame cfg d t)) = filter nonempty (type_records d t)) /\
+  (forall fr, model_frame cfg d = Ok fr ->
+     combine (cf_cols fr) (cols_of_rows (length (cf_cols fr)) (cf_rows fr)) = d_mvars d) /\
+  (forall t cols fr, In (t, cols) (d_tables d) -> table_frame cols = Ok fr ->
+     combine (cf_cols fr) (cols_of_rows (length (cf_cols fr)) (cf_rows fr)) = cols).
+Proof.
+  intros cfg ops d.
+  pose proof (exec_wf cfg ops (state_init cfg) (init_wf cfg)) as W.
+  exact (conj (fun fr => agent_frame_lossless cfg d fr W)
+        (conj (fun t => type_frame_lossless cfg d t W)
+        (conj (fun fr => model_frame_lossless cfg d fr)
+              (fun t cols fr _ => table_frame_lossless cols fr)))).
+Qed.
+Print Assumptions C12_frames_lossless.
+
+(* the records are keyed by distinct steps and every row carries its key, after every history *)
+Theorem C12_records_well_formed : forall cfg ops,
+  records_wf cfg (s_d (exec cfg (state_init cfg) ops)).
+Proof. intros cfg ops. exact (exec_wf cfg ops (state_init cfg) (init_wf cfg)). Qed.
+Print Assumptions C12_records_well_formed.
+
 (* ---- non-vacuity: a history satisfying every hypothesis above, with a mutable list mutated after
    the collect, two collects in one step, agent churn, a base-class key and a rejected row ---- *)
 Definition ex_cfg : config :=
@@ -161,11 +200,19 @@ Example C12_example :
   aget 0 (d_arecs (s_d (exec ex_cfg (state_init ex_cfg) ex_ops))) = Some [(0, 1, [SInt 5; SInt 1]); (0, 2, [SNone; SInt 2])] /\
   aget 1 (d_arecs (s_d (exec ex_cfg (state_init ex_cfg) ex_ops))) = Some [(1, 2, [SNone; SInt 2])] /\
   accepted ex_cfg ex_ops = [(0, [(0, Some 1); (1, None)])] /\
-  (exists s' , step ex_cfg (state_init ex_cfg) (AddRow 0 [(0, Some 1)] false) = (s', RErr E_EXC)).
+  (exists s' , step ex_cfg (state_init ex_cfg) (AddRow 0 [(0, Some 1)] false) = (s', RErr E_EXC)) /\
+  (* the frames of that history: 3 rows in the agent frame, grouped back into the records of steps 0 and 1 *)
+  (exists fr, agent_frame ex_cfg (s_d (exec ex_cfg (state_init ex_cfg) ex_ops)) = Ok fr /\
+              length (af_rows fr) = 3%nat /\ af_cols fr = [0; 1] /\
+              map fst (group_rows (af_rows fr)) = [0; 1]) /\
+  (exists fr, model_frame ex_cfg (s_d (exec ex_cfg (state_init ex_cfg) ex_ops)) = Ok fr /\
+              length (cf_rows fr) = 3%nat /\ cf_cols fr = [0; 1; 2; 3]).
 Proof.
   repeat split; try (vm_compute; reflexivity).
   - repeat constructor; simpl; intuition congruence.
   - repeat constructor; simpl; intuition congruence.
   - repeat constructor; simpl; intuition congruence.
   - eexists. vm_compute. reflexivity.
+  - eexists. vm_compute. repeat split; reflexivity.
+  - eexists. vm_compute. repeat split; reflexivity.
 Qed.
